@@ -30,6 +30,7 @@ REACH = ['gambit.sigs.calc:calc_file_signatures', 'gambit.sigs.calc:calc_file_si
 ACK_TIMEOUT = 3.0
 
 K, PREFIX = 5, b'AT'
+SPECS = [(5, b'AT'), (6, b'TA'), (5, b'AC'), (7, b'AT')]   # calls in one process alternate between these (state must not leak between calls)
 _ORIG = None
 _DELAYS = {}
 
@@ -58,7 +59,7 @@ def shards(tier, seed):
 
 # ---- files --------------------------------------------------------------------------------------
 
-def make_files(ctx, rng, n, skew=False, tag='f'):
+def make_files(ctx, rng, n, skew=False, tag='f', spec=None):
 	"""n FASTA files with pairwise different signatures. -> (SequenceFile list, expected signature lists)"""
 	from gambit.seq import SequenceFile
 	files, exps = [], []
@@ -74,7 +75,7 @@ def make_files(ctx, rng, n, skew=False, tag='f'):
 				contigs = [bytes(rng.choice(b'ACGT') for _ in range(rng.randint(60, 300))) + b'C' * ln]
 			else:
 				contigs = [bytes(rng.choice(b'ACGT') for _ in range(ln)) for _ in range(rng.choice([1, 2]))]
-			exp = S.signature(K, PREFIX, contigs)
+			exp = S.signature(*(spec or (K, PREFIX)), contigs)
 			if exp and tuple(exp) not in seen:
 				seen.add(tuple(exp))
 				break
@@ -316,7 +317,10 @@ def _run_pool(sh, ctx, gc, KmerSpec):
 		for r in range(sh['runs']):
 			n = rng.choice([1, 2, 3, 8, 20, 40]) if not sh.get('yield_injection') else rng.choice([4, 8, 12])
 			skew = rng.random() < 0.4 and mode is not None and not sh.get('yield_injection')
-			files, exps = make_files(ctx, rng, n, skew=skew, tag=f'r{r}_')
+			spec = SPECS[(r + sh['sub']) % len(SPECS)]
+			ks = KmerSpec(spec[0], spec[1])
+			ctx.seen('kmerspecs_used_in_one_process', f'{spec[0]}/{spec[1].decode()}')
+			files, exps = make_files(ctx, rng, n, skew=skew, tag=f'r{r}_', spec=spec)
 			_DELAYS.clear()
 			style = rng.choice(['none', 'decreasing', 'random'])
 			for i, f in enumerate(files):
@@ -326,7 +330,7 @@ def _run_pool(sh, ctx, gc, KmerSpec):
 					_DELAYS[str(f.path)] = rng.random() * 0.02
 			workers = rng.choice([1, 2, 3, 4, 8, 16, None])
 			own = rng.random() < 0.3 and mode is not None
-			w = dict(n=n, mode=sh['mode'], max_workers=workers, skew=skew, delays=style, caller_executor=own)
+			w = dict(n=n, mode=sh['mode'], max_workers=workers, skew=skew, delays=style, caller_executor=own, kmerspec=f'{spec[0]}/{spec[1].decode()}')
 			rec.orders.clear()
 			ex = None
 			try:
